@@ -55,6 +55,10 @@ def analysisVerdict (spec : Json → Json → String) (inp impl : Json) : Verdic
   -- clauses first, so the parameter is typed and named after that use, not after its first use in the text
   let cteRepeat := (src.search (·.isKind "WithClause")).any (fun w =>
     (List.range 12).any (fun n => countParam (n + 1) w > 0 && countParam (n + 1) src > countParam (n + 1) w))
+  -- two relations of the statement share a bare name across schemas: the parameter resolver's alias / name lookup
+  -- goes by bare name and takes the LAST such relation
+  let rvNames := (src.search (·.isKind "RangeVar")).map (fun rv => ((rv.get "Schemaname").strVal, (rv.get "Relname").strVal))
+  let sameBare := rvNames.any (fun a => rvNames.any (fun b => a.2 == b.2 && a.1 != b.1))
   -- JOIN … USING: sqlc does not merge the join column, an unqualified reference to it is reported ambiguous
   let joinUsing := (src.search (·.isKind "JoinExpr")).any (fun j => !(j.get "UsingClause").isNull && !(j.get "UsingClause").items.isEmpty)
   -- a set-returning function in FROM contributes no relation in sqlc: its column cannot be named
@@ -67,7 +71,7 @@ def analysisVerdict (spec : Json → Json → String) (inp impl : Json) : Verdic
       (if coalesceAlias then ["coalesceAlias"] else []) ++ (if aliasList then ["aliasListIgnored"] else []) ++
       (if unknownQual then ["unknownQualifier"] else []) ++ (if updFromStar then ["updateFromStar"] else []) ++
       (if rangeFunc then ["funcFromItem"] else []) ++ (if cteRepeat then ["cteWalkOrder"] else []) ++
-      (if joinUsing then ["joinUsing"] else []),
+      (if joinUsing then ["joinUsing"] else []) ++ (if sameBare then ["sameBareName"] else []),
     implProj := some (implProjection impl) }
 
 def c02 (kind : String) (inp impl : Json) : Verdict :=
